@@ -1,0 +1,159 @@
+//go:build verif
+
+// Contracts for properties C01 (set algebra exact) and C02 (equality extensional): frozen-backed
+// representations (GenericSet, UnionSet, Dict, EmptySet, TrueSet) and the dispatch in ops_set.go
+// (worker w-c01). Vocabulary: /verif/specs/35_sets.spec|.smt2. Comments only.
+package rel
+
+//@ globalfact EmptyTuple EmptyTuple == emptyTupleV
+//@ globalfact genericType genericType == genericTypeV && strof(genericType) == genericBkt
+
+// ---- GenericSet (value_set_generic.go) ------------------------------------------------------------
+
+//@ func (GenericSet).Has(s; v)
+//@   tags C01, C10
+//@   pure
+//@   ensures[C01] den: result == mem(box(s), v)
+
+//@ func (GenericSet).Count(s)
+//@   tags C01, C10
+//@   pure
+//@   ensures[C01] card: result == fcard(fr(s.set)) && result == scard(box(s))
+
+//@ func (GenericSet).IsTrue(s)
+//@   tags C01, C10
+//@   ensures[C01] nonempty: result == (fcard(fr(s.set)) > 0)
+
+// newSetFromFrozenSet: canonical result (None for the empty set, True for {()}), same members
+//@ func newSetFromFrozenSet(s)
+//@   tags C01, C02, C10
+//@   ensures[C10] nonnil: result != nil
+//@   ensures[C01] den: forall x: Val :: mem(result, x) <==> fmem(fr(s), x)
+//@   ensures[C02] canon: (result is EmptySet || result is TrueSet || result is GenericSet) && (fcard(fr(s)) == 0 <==> result is EmptySet) && (result is GenericSet ==> gr(result) == fr(s) && !(fcard(fr(s)) == 1 && fmem(fr(s), emptyTupleV)))
+//@   ensures[C01] card: scard(result) == fcard(fr(s))
+
+//@ func (GenericSet).Without(s; value)
+//@   tags C01, C02, C10
+//@   ensures[C01] den: forall x: Val :: mem(result, x) <==> (mem(box(s), x) && !eq(x, value))
+//@   ensures[C02] canon: result is EmptySet || result is TrueSet || result is GenericSet
+
+//@ func (GenericSet).Equal(s; v)
+//@   tags C02, C10
+//@   ensures[C02] ext: result == eq(box(s), v)
+
+// ---- UnionSet helpers (value_set_union.go) ---------------------------------------------------------
+
+// getSubset: the subset stored under bucket key t, None when there is none
+//@ func (UnionSet).getSubset(u; t)
+//@   tags C01, C10
+//@   assigns nothing
+//@   requires valid: forall k: Str :: smhas(fr(u.m), k) ==> okSub(smget(fr(u.m), k), k)
+//@   ensures[C01] sub: (smhas(fr(u.m), t) ==> result == smget(fr(u.m), t)) && (!smhas(fr(u.m), t) ==> result is EmptySet)
+//@   ensures[C10] nonnil: result != nil
+
+// ---- set algebra (ops_set.go) -----------------------------------------------------------------------
+
+//@ func Intersect(a, b)
+//@   tags C01, C02, C10
+//@   assigns fresh-only
+//@   modifies mitset, mitseen, enset, enseen, encur
+//@   requires va: validSet2(a)
+//@   requires vb: validSet2(b)
+//@   ensures[C10] nonnil: result != nil
+//@   ensures[C01] den: forall x: Val :: mem2(result, x) <==> (mem2(a, x) && mem2(b, x))
+//@   ensures[C02] canon: validSet2(result)
+//@   ensures[C02] family: !(a is UnionSet) || !(b is UnionSet) ==> !(result is UnionSet)
+//@ func Intersect$1(v)
+//@   tags C01, C10
+//@   assigns nothing
+//@   returns (ok, err)
+//@   requires bnn: b != nil      // about the captured operand; it is an antecedent of the closure definition assumed at creation (closuredef.go)
+//@   ensures[C01] defholds: err == nil && ok == mem2(b, v)
+
+//@ func Difference(a, b)
+//@   tags C01, C02, C10
+//@   assigns fresh-only
+//@   modifies mitset, mitseen, enset, enseen, encur
+//@   requires va: validSet2(a)
+//@   requires vb: validSet2(b)
+//@   ensures[C10] nonnil: result != nil
+//@   ensures[C01] den: forall x: Val :: mem2(result, x) <==> (mem2(a, x) && !mem2(b, x))
+//@   ensures[C02] canon: validSet2(result)
+//@   ensures[C02] family: !(a is UnionSet) ==> !(result is UnionSet)
+//@   ensures[C02] bkt: !(a is UnionSet) ==> (result is EmptySet || subsetBucket(result) == subsetBucket(a))
+//@ func Difference$1(v)
+//@   tags C01, C10
+//@   assigns nothing
+//@   returns (ok, err)
+//@   requires bnn: b != nil      // about the captured operand; it is an antecedent of the closure definition assumed at creation (closuredef.go)
+//@   ensures[C01] defholds: err == nil && ok == !mem2(b, v)
+
+//@ func SymmetricDifference(a, b)
+//@   tags C01, C02, C10
+//@   assigns fresh-only
+//@   modifies mitset, mitseen, enset, enseen, encur
+//@   requires va: validSet2(a)
+//@   requires vb: validSet2(b)
+//@   ensures[C10] nonnil: result != nil
+//@   ensures[C01] den: forall x: Val :: mem2(result, x) <==> (mem2(a, x) != mem2(b, x))
+//@   ensures[C02] canon: validSet2(result)
+
+//@ func Union(a, b)
+//@   tags C01, C02, C10
+//@   assigns fresh-only
+//@   modifies mitset, mitseen, enset, enseen, encur
+//@   requires va: validSet2(a)
+//@   requires vb: validSet2(b)
+//@   ensures[C10] nonnil: result != nil
+//@   ensures[C01] den: forall x: Val :: mem2(result, x) <==> (mem2(a, x) || mem2(b, x))
+//@   ensures[C02] canon: validSet2(result)
+//@   ensures[C01] emptyA: a is EmptySet ==> result == b
+//@   ensures[C01] emptyB: b is EmptySet ==> result == a
+//@   ensures[C02] samebkt: !(a is UnionSet) && !(b is UnionSet) && !(a is EmptySet) && !(b is EmptySet) && subsetBucket(a) == subsetBucket(b) ==> !(result is UnionSet) && !(result is EmptySet) && subsetBucket(result) == subsetBucket(a)
+
+// newSetFromBuckets: the set whose buckets are the entries of m (None / the single subset / UnionSet{m})
+//@ func newSetFromBuckets(m)
+//@   tags C01, C02, C10
+//@   assigns fresh-only
+//@   modifies mitset, mitseen
+//@   requires buckets: forall k: Str :: smhas(fr(m), k) ==> okSub(smget(fr(m), k), k)
+//@   ensures[C10] nonnil: result != nil
+//@   ensures[C01] den: forall x: Val :: mem2(result, x) <==> memU(fr(m), x)
+//@   ensures[C02] canon: validSet2(result)
+//@   ensures[C02] shape: (smcard(fr(m)) == 0 ==> result is EmptySet) && (smcard(fr(m)) == 1 ==> result == smget(fr(m), smany(fr(m)))) && (smcard(fr(m)) >= 2 ==> result is UnionSet && ur(result) == fr(m))
+
+// unionWithSubset: u united with a non-union set (merged into the bucket it is routed to)
+//@ func (UnionSet).unionWithSubset(u; subset)
+//@   tags C01, C02, C10
+//@   assigns fresh-only
+//@   modifies mitset, mitseen, enset, enseen, encur
+//@   requires valid: validUnion(fr(u.m))
+//@   requires vsub: validSet2(subset) && !(subset is UnionSet) && !(subset is EmptySet)
+//@   ensures[C10] nonnil: result != nil
+//@   ensures[C01] den: forall x: Val :: mem2(result, x) <==> (memU(fr(u.m), x) || mem(subset, x))
+//@   ensures[C02] canon: validSet2(result)
+
+//@ func NIntersect(a, bs)
+//@   tags C01, C02, C10
+//@   assigns fresh-only
+//@   modifies mitset, mitseen, enset, enseen, encur
+//@   requires va: validSet2(a)
+//@   requires vbs: forall i in 0..len(bs) :: validSet2(bs[i])
+//@   ensures[C01] den: forall x: Val :: mem2(result, x) <==> (mem2(a, x) && (forall i in 0..len(bs) :: mem2(bs[i], x)))
+//@   ensures[C02] canon: validSet2(result)
+//@   loop 0 invariant acc: $idx <= len(bs) && validSet2(cur(a)) && (forall x: Val :: mem2(cur(a), x) <==> (mem2(a, x) && (forall i in 0..$idx :: mem2(bs[i], x))))
+
+//@ func NUnion(sets)
+//@   tags C01, C02, C10
+//@   assigns fresh-only
+//@   modifies mitset, mitseen, enset, enseen, encur
+//@   requires vs: forall i in 0..len(sets) :: validSet2(sets[i])
+//@   ensures[C01] den: forall x: Val :: mem2(result, x) <==> (exists i in 0..len(sets) :: mem2(sets[i], x))
+//@   ensures[C02] canon: validSet2(result)
+//@   loop 0 invariant acc: $idx <= len(sets) && validSet2(result) && (forall x: Val :: mem2(result, x) <==> (exists i in 0..$idx :: mem2(sets[i], x)))
+
+// ---- Dict (value_set_dict.go) -------------------------------------------------------------------------
+// Count must be the number of members = number of (key, value) pairs (dcard), not the number of keys.
+//@ func (Dict).Count(d)
+//@   tags C01, C10
+//@   ensures[C01] card: result == scard(box(d))
